@@ -119,7 +119,8 @@ class MroWorld(TypesWorld):
 
     def merge_model(self, I, args, kwargs):
         (orders,) = args
-        s = self.make_set(I, I.iterable(orders))
+        it = I.iterable(orders)
+        s = self.make_set(I, it.consume() if isinstance(it, Stream) else it)
         return OrderV(merge_spec(s.flags))
 
     def _caller_measure(self, I):
@@ -770,20 +771,57 @@ def t_subtler_type():
                 return False
             return NotImplemented
 
+    MC_TYPE = z3.Const("MC_TYPE", metacls.range())  # the metaclass `type` itself; a class may have any metaclass (ABCMeta, EnumMeta, ...)
+
+    class MetaV(SymObj):
+        """type(obj) of a type object: its metaclass (`type` for ordinary classes, ABCMeta / EnumMeta / ... or an ovld
+        metaclass otherwise; types.UnionType / typing's alias classes for unions and aliases)."""
+
+        def __init__(self, t):
+            self.t = t
+
+        def py_is(self, I, other):
+            if isinstance(other, PyClassToken) and other.name == "type":
+                return z3.And(metacls(self.t) == MC_TYPE, kind(self.t) == K["Class"])
+            if isinstance(other, MetaV):
+                return metacls(self.t) == metacls(other.t)
+            return False
+
+        py_eq = py_is
+
+    class ValTypeV(TyV):
+        """type(v) of an ordinary (non-class) value: never `type` itself (an instance of `type` is a class)."""
+
+        def py_is(self, I, other):
+            if isinstance(other, PyClassToken) and other.name == "type":
+                return False
+            return NotImplemented
+
+    class UnionTypesTok(SymObj):
+        def py_contains(self, I, x):
+            if isinstance(x, MetaV):
+                return kind(x.t) == K["PyUnion"]
+            if isinstance(x, TyV):
+                return False  # the members of UnionTypes are not types of the universe (typing.Union itself is handled by the normaliser)
+            raise OutOfSubset("membership in UnionTypes")
+
+    UNIONTYPES = UnionTypesTok()
+
     class W(MroWorld):
         def __init__(self):
             super().__init__(unfold=0, sc_unfold=0)
             self.axiom(lambda I: mktype_axioms())
+            self.axiom(lambda I: [metacls(ANYT) != MC_TYPE])  # typing.Any: class with metaclass _AnyMeta (3.11+) / a _SpecialForm instance
             self.inline("utils:subtler_type", "utils:GenericAliasMC.__instancecheck__")
             self.set_global("utils", "typing", ModuleV("typing", {"Any": TyV(ANYT)}))
-            self.set_global("utils", "UnionTypes", "UNIONTYPES")
+            self.set_global("utils", "UnionTypes", UNIONTYPES)
 
         def isinstance_(self, I, x, cls):
             from pyvc.interp import RepoClass
 
             if isinstance(cls, RepoClass) and cls.qual == "utils:GenericAlias":
                 return I.truth(I.call_repo("utils:GenericAliasMC.__instancecheck__", [cls, x], {}))
-            if cls == "UNIONTYPES":
+            if cls is UNIONTYPES:
                 return kind(x.t) == K["PyUnion"] if isinstance(x, TyV) else False
             return super().isinstance_(I, x, cls)
 
@@ -795,7 +833,9 @@ def t_subtler_type():
 
         def type_of(self, I, x):
             if isinstance(x, ValV):
-                return TyV(typeof(x.t))
+                return ValTypeV(typeof(x.t))
+            if isinstance(x, TyV):
+                return MetaV(x.t)
             return super().type_of(I, x)
 
     def build_for(which):
